@@ -3,6 +3,7 @@
 
 #include "manif/impl/so3/SO3_properties.h"
 #include "manif/impl/tangent_base.h"
+#include "manif/impl/utils.h"
 
 namespace manif {
 
@@ -133,8 +134,8 @@ SO3TangentBase<_Derived>::exp(OptJacobianRef J_m_t) const
       const LieAlg W = hat();
 
       J_m_t->setIdentity();
-      J_m_t->noalias() -= (Scalar(1.0) - cos(theta)) / theta_sq * W;
-      J_m_t->noalias() += (theta - sin(theta)) / (theta_sq * theta) * W * W;
+      J_m_t->noalias() -= internal::oneMinusCosByThetaSq(theta, theta_sq) * W;
+      J_m_t->noalias() += internal::thetaMinusSinByThetaCu(theta, theta_sq) * W * W;
     }
 
     return LieGroup( Eigen::AngleAxis<Scalar>(theta, theta_vec.normalized()) );
@@ -184,8 +185,8 @@ SO3TangentBase<_Derived>::ljac() const
   const Scalar theta = sqrt(theta_sq); // rotation angle
 
   return Jacobian::Identity() +
-    (Scalar(1) - cos(theta)) / theta_sq * W +
-    (theta - sin(theta)) / (theta_sq * theta) * W * W;
+    internal::oneMinusCosByThetaSq(theta, theta_sq) * W +
+    internal::thetaMinusSinByThetaCu(theta, theta_sq) * W * W;
 }
 
 template <typename _Derived>
